@@ -189,7 +189,10 @@ class C10Mixin(object):
         v = 1.2345 if arg is None else arg
         if target in ("_mass", "_density", "_abundance", "_mass_unc", "_abundance_unc", "covalent_radius", "covalent_radius_uncertainty",
                       "K_alpha", "K_beta1", "density_caveat", "nuclear_spin"):
-            setattr(a, target, v)
+            if arg == "<del>":
+                delattr(a, target)      # back to whatever the class serves; may raise (nothing to delete)
+            else:
+                setattr(a, target, None if arg == "<none>" else v)
             return "ok"
         if target == "crystal_structure_assign":
             a.crystal_structure = {"symmetry": "verif", "a": v}
